@@ -25,6 +25,9 @@ type vfUp struct {
 	tr  int
 	seq uint32
 	dup bool
+	// broken: the request body is a two-chunk segment that ends in the middle of its second chunk (the connection broke); whatever the
+	// receiver answers, a complete upload of the same number follows later in the schedule
+	broken bool
 }
 
 type vfSched struct {
@@ -92,7 +95,7 @@ func TestVerifC17(t *testing.T) {
 	}
 	// all permutations of 2x3 (per-track order not preserved)
 	{
-		items := []vfUp{{0, 0, false}, {0, 1, false}, {0, 2, false}, {1, 0, false}, {1, 1, false}, {1, 2, false}}
+		items := []vfUp{{0, 0, false, false}, {0, 1, false, false}, {0, 2, false, false}, {1, 0, false, false}, {1, 1, false, false}, {1, 2, false, false}}
 		var perm func(k int)
 		perm = func(k int) {
 			if k == len(items) {
@@ -136,6 +139,38 @@ func TestVerifC17(t *testing.T) {
 					ups = append(ups, vfUp{tr: tr, seq: 105})
 				}
 				scheds = append(scheds, vfSched{name: fmt.Sprintf("retry-before-last-track-%d", T), nTracks: T, tsbd: 20, ups: ups, firstSeq: 100, shape: "duplicates"})
+			}
+		}
+	}
+	// a request that breaks in the middle of its second chunk, followed (at once or a little later) by the complete retry
+	for T := 2; T <= 3; T++ {
+		for X := 0; X < T; X++ {
+			for _, later := range []bool{false, true} {
+				var ups []vfUp
+				for n := uint32(100); n < 104; n++ {
+					for tr := 0; tr < T; tr++ {
+						ups = append(ups, vfUp{tr: tr, seq: n})
+					}
+				}
+				for tr := 0; tr < T; tr++ {
+					if tr == X {
+						ups = append(ups, vfUp{tr: tr, seq: 104, broken: true})
+						if !later {
+							ups = append(ups, vfUp{tr: tr, seq: 104})
+						}
+					} else {
+						ups = append(ups, vfUp{tr: tr, seq: 104})
+					}
+				}
+				if later {
+					ups = append(ups, vfUp{tr: X, seq: 104})
+				}
+				for n := uint32(105); n < 108; n++ {
+					for tr := 0; tr < T; tr++ {
+						ups = append(ups, vfUp{tr: tr, seq: n})
+					}
+				}
+				scheds = append(scheds, vfSched{name: fmt.Sprintf("broken-request-then-retry-%d", T), nTracks: T, tsbd: 30, ups: ups, firstSeq: 100, shape: "broken-request"})
 			}
 		}
 	}
@@ -547,6 +582,19 @@ func vfRunSched(t *testing.T, r *rep.R, s vfSched, ci int) {
 					return
 				}
 			}
+		}
+		if u.broken {
+			body := tracks[u.tr].segment(chName, u.seq, 0, 2)
+			nEv := len(vfEventsFor(chName))
+			code := rv.put(fmt.Sprintf("%s/%s/%d%s", chName, tracks[u.tr].name, u.seq, tracks[u.tr].ext), body[:len(body)*3/4], nil)
+			r.Eval(1)
+			r.Add(fmt.Sprintf("broken_uploads_answered_%d", code), 1)
+			// let the channel goroutine take what the broken request has handed over (bounded wait, nothing is decided by it)
+			for w := 0; w < 400 && len(vfEventsFor(chName)) == nEv; w++ {
+				time.Sleep(100 * time.Microsecond)
+			}
+			time.Sleep(time.Millisecond)
+			continue
 		}
 		if !upload(u.tr, u.seq, fmt.Sprintf("upload %d (track %d seq %d)", i, u.tr, u.seq)) {
 			return
